@@ -46,6 +46,12 @@ Conv(e) == /\ KindOK(e) /\ e.claimed
 Exact(e) == KindOK(e) /\ (e.res0_zero => ~e.panic /\ e.ok /\ e.k = 0 /\ Len(e.xb_pre) = e.n /\ SameSeq(e.xb_pre, e.xb_post))
 \* zero right-hand side with zero guess: Ok(0), x finite and still zero
 Zero(e) == KindOK(e) /\ ~e.panic /\ e.ok /\ e.k = 0 /\ e.x_finite /\ Len(e.xb_post) = e.n /\ AllZeroBits(e.xb_post)
+\* budget ladder (Krylov.tla: PrefixRel / BudgetLadder): the generous run returned Ok(k), hence outcome(budget) = Ok(k) with the
+\* same x iff budget >= k; the event carries the outcomes for budgets k, k+1 and k-1
+Ladder(e) == /\ KindOK(e) /\ e.k >= 0
+             /\ e.ok_k /\ e.k_k = e.k /\ e.xh_k = e.xh
+             /\ e.ok_k1 /\ e.k_k1 = e.k /\ e.xh_k1 = e.xh
+             /\ ~e.ok_km1
 \* exact iterates of the rational CG model against the real iterates: conformance note, the property does not fix iterates
 Iter(e) == KindOK(e) /\ e.j >= 1 /\ e.j <= e.kx /\ e.iter_units >= 0
 
@@ -56,6 +62,7 @@ Explained(e) ==
     [] e.op = "exact"  -> Exact(e)
     [] e.op = "zero"   -> Zero(e)
     [] e.op = "iter"   -> Iter(e)
+    [] e.op = "ladder" -> Ladder(e)
     [] OTHER -> FALSE
 
 NoCall == [cid |-> 0, ok |-> FALSE, k |-> 0, xh |-> ""]
